@@ -11,6 +11,7 @@
 #include "ref/mutate.h"
 #include <nop/types/file_handle.h>
 #include <sys/stat.h>
+#include <sys/wait.h>
 
 using namespace vf;
 namespace vf { std::vector<TypeOps>& registry() { static std::vector<TypeOps> r; return r; } }
@@ -325,6 +326,8 @@ static std::vector<OpRec> handle_alphabet() {
   return al;
 }
 
+#include "special.h"
+
 // =================================================================== generic history driver
 template <typename Run> static void finish_run(Run&, bool) {}
 struct HandleRun;
@@ -473,6 +476,16 @@ static void c15_transfer() {
             Source s2; s2.init(R_LOG, mb.data(), mb.size()); void* o3 = t.create(); auto r3 = t.read(s2, o3); t.destroy(o3);
             rep().count("c15_corrupted_tags");
             if (r3 || r3.error() != nop::ErrorStatus::UnexpectedHandleType) rep().violation("C15:tag-not-validated", fmt("%s: a corrupted handle type tag gave '%s', not UnexpectedHandleType", t.name, r3 ? "success" : errname(r3.error())), cd);
+            // tags that differ from the policy's only in one bit, incl. bits above the width of a narrow tag type: a foreign handle must be
+            // rejected (UnexpectedHandleType, or UnexpectedEncodingType when the tag no longer fits the tag type) and never resolved
+            uint64_t tag = e.out[f.off]; if (tag >= 0x80) { size_t w = (size_t)1 << (tag - 0x80); tag = 0; for (size_t i = 0; i < w && i < 8; i++) tag |= (uint64_t)e.out[f.off + 1 + i] << (8 * i); }
+            for (int bit : {0, 1, 7, 8, 9, 15, 16, 24, 31, 32, 40, 63}) {
+              Enc t3; t3.put_uint(tag ^ (1ull << bit), Role::TAG, 64); Bytes mb3 = vf::splice(e.out, f.off, f.len, t3.out);
+              Source s3; s3.init(R_LOG, mb3.data(), mb3.size()); void* o4 = t.create(); auto r4 = t.read(s3, o4); t.destroy(o4);
+              rep().count("c15_corrupted_tags");
+              if (r4 || (r4.error() != nop::ErrorStatus::UnexpectedHandleType && r4.error() != nop::ErrorStatus::UnexpectedEncodingType) || !s3.log.got.empty())
+                rep().violation("C15:foreign-tag-accepted", fmt("%s: handle type tag %" PRIu64 " changed to %" PRIu64 ": read gave '%s', GetHandle was called %zu time(s)", t.name, tag, tag ^ (1ull << bit), r4 ? "success" : errname(r4.error()), s3.log.got.size()), cd);
+            }
             break;
           }
           for (nop::ErrorStatus E : {nop::ErrorStatus::InvalidHandleReference, nop::ErrorStatus::InvalidHandleValue, nop::ErrorStatus::IOError, nop::ErrorStatus::ProtocolError}) {
@@ -499,6 +512,27 @@ static void c15_transfer() {
       int rel = m.release(); if (fcntl(rel, F_GETFD) < 0) rep().violation("C15:filehandle-release-closed", "a released descriptor was closed", ""); ::close(rel); }
     if (fcntl(raw, F_GETFD) >= 0) rep().violation("C15:filehandle-not-closed", "descriptor still open after its UniqueFileHandle was destroyed", "");
     rep().count("c15_real_fd_cases"); rep().note(hash_str("real-fd"), true);
+    // descriptor 0 is a valid descriptor (a process started with stdin closed gets it from open/accept/dup): in a forked child with fd 0 closed,
+    // a UniqueFileHandle owning descriptor 0 must close it on destruction, close() and move-assignment over it
+    { pid_t pid = fork();
+      if (pid == 0) {
+        ::close(0);
+        { auto h = nop::UniqueFileHandle::Open("/dev/null", O_RDONLY); if (h.get() != 0) _exit(3); }
+        if (fcntl(0, F_GETFD) >= 0) _exit(10);
+        { auto h = nop::UniqueFileHandle::Open("/dev/null", O_RDONLY); if (h.get() != 0) _exit(3); h.close(); if (fcntl(0, F_GETFD) >= 0) _exit(11); if (h) _exit(13); }
+        { auto h = nop::UniqueFileHandle::Open("/dev/null", O_RDONLY); auto h2 = nop::UniqueFileHandle::Open("/dev/null", O_RDONLY); if (h.get() != 0 || h2.get() <= 0) _exit(3); int other = h2.get(); h = std::move(h2);
+          if (fcntl(0, F_GETFD) >= 0) _exit(12); if (h.get() != other || fcntl(other, F_GETFD) < 0) _exit(14); }
+        { auto h = nop::UniqueFileHandle::Open("/dev/null", O_RDONLY); if (h.get() != 0) _exit(3); int rel = h.release(); if (rel != 0 || fcntl(0, F_GETFD) < 0) _exit(15); ::close(0); }
+        _exit(0);
+      }
+      int status = 0; if (pid > 0 && waitpid(pid, &status, 0) == pid) {
+        int rc = WIFEXITED(status) ? WEXITSTATUS(status) : -1;
+        rep().count("c15_fd0_child_cases");
+        const char* what = rc == 10 ? "destruction" : rc == 11 ? "close()" : rc == 12 ? "move-assignment over it" : rc == 13 ? "close() left the handle valid" : rc == 14 ? "move-assignment lost the new descriptor" : rc == 15 ? "release() closed the descriptor" : nullptr;
+        if (what) rep().violation("C15:filehandle-fd0", fmt("a UniqueFileHandle owning descriptor 0: %s did not behave as for any other descriptor (descriptor 0 %s)", what, rc == 15 ? "was closed" : "stayed open"), "");
+        else if (rc != 0) rep().counters["c15_fd0_child_inconclusive"]++;
+      }
+    }
     clear_current();
   }
 }
@@ -508,12 +542,14 @@ int vf::engine_main() {
   if (a.prop == "C12") {
     auto al = variant_alphabet();
     if (a.only_type.empty() || a.only_type == "Variant") run_histories<VariantRun>("Variant", "c12", al, kVNames, th ? 4 : 3, th ? 2000000 : 60000, 40, false);
+    if ((a.only_type.empty() && a.worker == 0) || a.only_type == "special") variant_special();
     return 0;
   }
   if (a.prop == "C13") {
     auto al = opt_alphabet();
     if (a.only_type.empty() || a.only_type == "Optional/Result") run_histories<OptRun>("Optional/Result", "c13", al, kONames, th ? 4 : 3, th ? 2000000 : 60000, 40, false);
     if (!a.replay() || a.only_type == "Optional-compare" || a.only_type == "Status") c13_comparisons();
+    if ((a.only_type.empty() && a.worker == 0) || a.only_type == "special") optional_special();
     return 0;
   }
   if (a.prop == "C15") {
